@@ -610,6 +610,26 @@ impl IndexTable {
 	}
 }
 
+/// Verification hook: run one of the two private page search functions on a raw chunk.
+/// `fast` selects the vectorised search (the scalar one on targets without it).
+#[cfg(parity_db_verif)]
+pub fn verif_find_entry(
+	index_bits: u8,
+	chunk: &[u8; CHUNK_LEN],
+	key_prefix: u64,
+	sub_index: usize,
+	fast: bool,
+) -> (u64, usize) {
+	let table = IndexTable::create_new(std::path::Path::new(""), TableId::new(0, index_bits));
+	let chunk = Chunk(*chunk);
+	let (entry, position) = if fast {
+		table.find_entry(key_prefix, sub_index, &chunk)
+	} else {
+		table.find_entry_base(key_prefix, sub_index, &chunk)
+	};
+	(entry.as_u64(), position)
+}
+
 #[cfg(test)]
 mod test {
 	use super::*;
